@@ -545,3 +545,86 @@ def option_tests(fn, locals_of_interest=None):
     if locals_of_interest is not None:
         out = [o for o in out if o["root"] in locals_of_interest or o["place"][0] in locals_of_interest]
     return out
+
+
+# --------------------------------------------------------------------------- what a branch implies
+
+def truth_implies(fn, local, want=True, depth=6, _seen=None):
+    """Facts that necessarily hold when the boolean `local` has the value `want`:
+    returns a list of ('call', Call, bool)  -- that call returned that value --  and ('at', block) -- control passed that block,
+    or None when the analysis does not understand how the local is computed.  Handles copies, negation, calls, and the
+    multi-assignment lowering of `a && b` / `a || b` (one constant arm, one computed arm)."""
+    _seen = _seen or set()
+    if (local, want) in _seen or depth <= 0:
+        return None
+    _seen = _seen | {(local, want)}
+    defs = fn.defs.get(local, [])
+    if not defs:
+        return None
+    cands = []
+    for (b, i, rv) in defs:
+        if i == "term":
+            cands.append((b, i, rv))
+            continue
+        if rv["k"] == "use" and "k" in rv["a"]:
+            v = const_int(rv["a"])
+            if v is not None and bool(v) != want:
+                continue            # this assignment cannot be the one that made local == want
+        cands.append((b, i, rv))
+    if len(cands) != 1:
+        return None if len(cands) > 1 else []
+    b, i, rv = cands[0]
+    out = [("at", b)] if len(defs) > 1 else []
+    if i == "term":
+        c = fn.call_at(b)
+        if c is None:
+            return None
+        return out + [("call", c, want)]
+    k = rv["k"]
+    if k == "use":
+        if "k" in rv["a"]:
+            return out
+        p = op_place(rv["a"])
+        if len(p) != 1:
+            return None
+        r = truth_implies(fn, p[0], want, depth - 1, _seen)
+        return None if r is None else out + r
+    if k == "unop" and rv["op"] == "Not":
+        p = op_place(rv["a"]) if "k" not in rv["a"] else None
+        if not p or len(p) != 1:
+            return None
+        r = truth_implies(fn, p[0], not want, depth - 1, _seen)
+        return None if r is None else out + r
+    return None
+
+
+def edge_implies_call(fn, sb, tb, call, want=True):
+    """taking the CFG edge sb->tb implies that `call` (a bool-returning call) returned `want`:
+    either an edge on the call's own result dominates, or sb switches on a boolean whose value on that edge implies it"""
+    for (s, tt, ft) in bool_branch(fn, call.dest[0]) if len(call.dest) == 1 else []:
+        if (want and (s, tt) == (sb, tb)) or ((not want) and (s, ft) == (sb, tb)):
+            return True
+        if edge_dominates(fn, s, tt if want else ft, sb):
+            return True
+    t = fn.term(sb)
+    if not t or t["k"] != "switch":
+        return False
+    l = op_local(t["d"])
+    if l is None:
+        return False
+    zero = [x for v, x in t["ts"] if v == 0]
+    if not zero:
+        return False
+    val = (tb != zero[0])
+    facts = truth_implies(fn, l, val)
+    if facts is None:
+        return False
+    for f_ in facts:
+        if f_[0] == "call" and f_[1] is call and f_[2] == want:
+            return True
+    for f_ in facts:
+        if f_[0] == "at":
+            for (s, tt, ft) in bool_branch(fn, call.dest[0]) if len(call.dest) == 1 else []:
+                if edge_dominates(fn, s, tt if want else ft, f_[1]):
+                    return True
+    return False
